@@ -17,8 +17,8 @@ META = {
              "the monotonicity clause; distinct by structural hash; non-trivial = >= 2 measured qubits interleaved and (nesting >= 2 or product of counts >= 4)"),
     "assumptions": ["numbering oracle is the statement itself (dense 0..N-1 along the listing); Stim's text/flattened form is trusted for the export-order clause"],
     "floors": {
-        "quick": {"measurements_observed": 30000, "tag_filters_checked": 20000, "export_order_checked": 3000, "monotonic_circuits": 300, "library_circuits": 40},
-        "thorough": {"measurements_observed": 300000, "tag_filters_checked": 200000, "export_order_checked": 30000, "monotonic_circuits": 3000},
+        "quick": {"measurements_observed": 30000, "tag_filters_checked": 15000, "export_order_checked": 3000, "monotonic_circuits": 300, "library_circuits": 40},
+        "thorough": {"measurements_observed": 300000, "tag_filters_checked": 150000, "export_order_checked": 30000, "monotonic_circuits": 3000},
     },
 }
 
